@@ -19,13 +19,30 @@ use std::sync::atomic::{AtomicBool, Ordering};
 use std::sync::Arc;
 use std::task::{Context, Poll, Wake, Waker};
 
-pub struct Flag(AtomicBool);
+type RunQ = Arc<std::sync::Mutex<std::collections::BTreeSet<usize>>>;
+
+/// Per-task wake flag. Woken op tasks also enter a shared run set so that finding the next runnable
+/// task does not scan every task (the long deterministic runs have 65 535 of them).
+pub struct Flag {
+    set: AtomicBool,
+    op: Option<usize>,
+    runq: RunQ,
+}
+impl Flag {
+    fn raise(&self) {
+        if !self.set.swap(true, Ordering::SeqCst) {
+            if let Some(i) = self.op {
+                self.runq.lock().unwrap().insert(i);
+            }
+        }
+    }
+}
 impl Wake for Flag {
     fn wake(self: Arc<Self>) {
-        self.0.store(true, Ordering::SeqCst);
+        self.raise();
     }
     fn wake_by_ref(self: &Arc<Self>) {
-        self.0.store(true, Ordering::SeqCst);
+        self.raise();
     }
 }
 
@@ -103,10 +120,17 @@ pub struct Task {
 }
 
 impl Task {
-    fn new(name: String, fut: BoxFut) -> Task {
+    fn new(name: String, fut: BoxFut, op: Option<usize>, runq: &RunQ) -> Task {
+        if let Some(i) = op {
+            runq.lock().unwrap().insert(i);
+        }
         Task {
             fut: Some(fut),
-            flag: Arc::new(Flag(AtomicBool::new(true))),
+            flag: Arc::new(Flag {
+                set: AtomicBool::new(true),
+                op,
+                runq: runq.clone(),
+            }),
             held: false,
             polls: 0,
             name,
@@ -116,7 +140,7 @@ impl Task {
         self.fut.is_some()
     }
     pub fn flagged(&self) -> bool {
-        self.flag.0.load(Ordering::SeqCst)
+        self.flag.set.load(Ordering::SeqCst)
     }
 }
 
@@ -172,6 +196,7 @@ pub struct World {
     /// packets decoded from earlier wires (before a reconnect)
     pub total_polls: u64,
     pub wire_generation: u32,
+    runq: RunQ,
 }
 
 impl World {
@@ -235,11 +260,13 @@ impl World {
             drop(ctx);
             sh2.borrow_mut().phase = Phase::Gone;
         });
+        let runq: RunQ = Arc::new(std::sync::Mutex::new(std::collections::BTreeSet::new()));
         let mut w = World {
+            runq: runq.clone(),
             chz,
             wire: wire.clone(),
             sh,
-            ctx: Task::new("ctx".into(), fut),
+            ctx: Task::new("ctx".into(), fut, None, &runq),
             ops: Vec::new(),
             streams: Vec::new(),
             master: Some(handle),
@@ -336,7 +363,7 @@ impl World {
                 sh.borrow_mut().log.push(Ob::Done { op, res: d });
             }),
         };
-        self.ops.push(Task::new(format!("op{}", op), fut));
+        self.ops.push(Task::new(format!("op{}", op), fut, Some(op), &self.runq));
         op
     }
 
@@ -353,7 +380,7 @@ impl World {
             }
             sh.borrow_mut().log.push(Ob::StreamEnd { stream: sid });
         });
-        self.streams.push(Task::new(format!("stream{}", sid), fut));
+        self.streams.push(Task::new(format!("stream{}", sid), fut, None, &self.runq));
         Some(sid)
     }
 
@@ -396,7 +423,10 @@ impl World {
                 self.sh.borrow_mut().cmds.clear();
                 self.sh.borrow_mut().phase = Phase::Gone;
             }
-            Tid::Op(_) => self.maybe_msgs = true, // its handle clone is gone
+            Tid::Op(i) => {
+                self.maybe_msgs = true; // its handle clone is gone
+                self.runq.lock().unwrap().remove(&i);
+            }
             Tid::Stream(_) => {}
         }
         self.after_poll();
@@ -415,7 +445,11 @@ impl World {
         let Some(mut fut) = task.fut.take() else {
             return;
         };
-        task.flag.0.store(false, Ordering::SeqCst);
+        if let Tid::Op(i) = t {
+            self.runq.lock().unwrap().remove(&i);
+        }
+        let task = self.task_mut(t);
+        task.flag.set.store(false, Ordering::SeqCst);
         task.polls += 1;
         let waker = Waker::from(task.flag.clone());
         let name = task.name.clone();
@@ -525,9 +559,13 @@ impl World {
         if self.ctx.alive() && self.ctx.flagged() && !self.ctx.held {
             return Some(Tid::Ctx);
         }
-        for (i, t) in self.ops.iter().enumerate() {
-            if t.alive() && t.flagged() && !t.held {
-                return Some(Tid::Op(i));
+        {
+            let q = self.runq.lock().unwrap();
+            for &i in q.iter() {
+                let t = &self.ops[i];
+                if t.alive() && t.flagged() && !t.held {
+                    return Some(Tid::Op(i));
+                }
             }
         }
         for (i, t) in self.streams.iter().enumerate() {
